@@ -19,6 +19,8 @@ pub const A_TRANSPOSE: i64 = 2; // row view == columns (C13)
 pub const A_BYTES: i64 = 4; // bytes_read accounting, frame count monotone (C12)
 pub const A_FINAL: i64 = 8; // final state == one-shot game (C12)
 pub const A_ONESHOT: i64 = 16; // one-shot read compared with the model (C03/C04)
+pub const A_OPEN: i64 = 32; // the input is a prefix of an event history (may stop inside a frame)
+pub const A_LASTONLY: i64 = 64; // look at the state only after the last event (predecessors were checked as their own states)
 
 pub fn sched_of(p: &P) -> Sched {
 	match p.n[1] {
@@ -89,9 +91,13 @@ pub fn set_sched(p: &mut P, s: &Sched) {
 /// Drive header, start, one event per call, metadata; look at the state after every call.
 /// Aspects to check are in p.n[0]; the read schedule in p.n[1..].
 pub fn o_incremental(input: &[u8], p: &P) -> Out {
-	let rg = domain(input, "incremental");
-	let mut out = out_from(&rg);
 	let aspects = p.n[0];
+	let rg = if aspects & A_OPEN != 0 {
+		crate::model::refparse_opts(input, true).unwrap_or_else(|e| machinery(&format!("incremental(prefix): generated input is outside the model's domain: {}", e)))
+	} else {
+		domain(input, "incremental")
+	};
+	let mut out = out_from(&rg);
 	let r = catch(|| incremental_inner(input, p, &rg, aspects));
 	match r {
 		Ok(Ok(obs)) => out.obs = obs,
@@ -133,7 +139,8 @@ fn incremental_inner(input: &[u8], p: &P, rg: &RefGame, aspects: i64) -> Result<
 			return Err(e("inc-events", format!("parse_event succeeded {} times but the raw element has {} events", n + 1, rg.rows_done.len())));
 		}
 		let done = rg.rows_done[n];
-		if aspects & A_BYTES != 0 {
+		let look = aspects & A_LASTONLY == 0 || n + 1 == rg.rows_done.len();
+		if aspects & A_BYTES != 0 && look {
 			if state.bytes_read() != rg.bytes_after[n] {
 				return Err(e("bytes-read", format!("after event #{} (code {:#x}) bytes_read() = {} but {} raw bytes have been consumed", n, code, state.bytes_read(), rg.bytes_after[n])));
 			}
@@ -149,10 +156,10 @@ fn incremental_inner(input: &[u8], p: &P, rg: &RefGame, aspects: i64) -> Result<
 			}
 			prev_len = len;
 		}
-		if aspects & A_ROWS != 0 {
+		if aspects & A_ROWS != 0 && look {
 			compare_frames(state.frames(), rg, done, false).map_err(|(k, m)| e(&format!("inc-{}", k), format!("after event #{} (code {:#x}, {} rows complete): {}", n, code, done, m)))?;
 		}
-		if aspects & A_TRANSPOSE != 0 {
+		if aspects & A_TRANSPOSE != 0 && look {
 			// only the rows completed by this event need a fresh look (earlier ones were checked before)
 			let from = if n == 0 { 0 } else { rg.rows_done[n - 1] };
 			for i in from..done {
